@@ -415,10 +415,16 @@ func vmCheck(k *h.Case, rp *spec.Program, out string, o vmCheckOpts, tag string)
 		in.Render = o.Render
 		vm := &asm.VM{F: f, Sec: sec, Hits: map[int]bool{}}
 		paths := map[uint64]bool{}
-		for si := 0; si < o.NStates; si++ {
+		// at least NStates states; keep going (up to 6x) while new instructions are still being reached
+		lastGain := 0
+		for si := 0; si < o.NStates || (si-lastGain < o.NStates && si < 6*o.NStates); si++ {
 			st := &ref.HashState{Seed: h.Hash64(k.C.Seed, k.Sub, k.Index, s.Entry, si), Cands: o.Cands}
 			rt := in.Run(st)
+			before := len(vm.Hits)
 			vt := vm.Run(st)
+			if len(vm.Hits) > before {
+				lastGain = si
+			}
 			k.Count("vm_runs", 1)
 			var a, b []string
 			if o.Full {
